@@ -346,7 +346,17 @@ class Deriver:
 
 
 SPELL = {'NAME': ['a', 'xy', '_z9'], 'NUMBER': ['1', '0x1F', '2.5e3'], 'STRING': ["'s'", '"t"', "b'u'"],
-         'FSTRING_START': ["f'", 'f"', "F'"], 'FSTRING_STRING': ['q', 'q', 'q'], 'FSTRING_END': ["'", '"', "'"]}
+         # literal text of an f-string may be spelled like a keyword or operator of the grammar: it stays literal text
+         'FSTRING_START': ["f'", 'f"', "F'"], 'FSTRING_STRING': ['.', 'q', 'if'], 'FSTRING_END': ["'", '"', "'"]}
+
+
+def leaf_kind(label, text):
+    """The kind of leaf a terminal of the grammar becomes (parso's documented convention, read independently of
+    convert_leaf): a quoted grammar string is a keyword when it is a word and an operator otherwise; a token type gives the
+    leaf type of the same name."""
+    if label.startswith("'"):
+        return 'keyword' if (text[:1].isalpha() or text[:1] == '_') else 'operator'
+    return label.lower()
 
 
 def render(tree, variant=0):
@@ -419,7 +429,7 @@ def expected_shape(tree, texts):
         txt = next(texts)
         if tree[1] in ('INDENT', 'DEDENT'):
             return None
-        return ('L', txt)
+        return ('L', txt, leaf_kind(tree[1], txt))
     kids = [expected_shape(c, texts) for c in tree[2]]
     kids = [k for k in kids if k is not None]
     rule = tree[1]
@@ -432,7 +442,7 @@ def expected_shape(tree, texts):
 
 def actual_shape(node):
     if not hasattr(node, 'children'):
-        return ('L', node.value)
+        return ('L', node.value, node.type)
     kids = []
     for c in node.children:
         if hasattr(c, 'children') and c.type == 'param':
